@@ -524,6 +524,7 @@ pub fn check_main(def: &PropDef, tier: Tier) -> i32 {
         out: PathBuf,
         done: bool,
         killed_for_hang: Option<u64>,
+        stopped_by_parent: bool,
     }
     let mut children: Vec<Child> = Vec::new();
     for i in 0..nworkers {
@@ -554,11 +555,22 @@ pub fn check_main(def: &PropDef, tier: Tier) -> i32 {
                 }
             }
         });
-        children.push(Child { idx: i, proc, inflight, out, done: false, killed_for_hang: None });
+        children.push(Child { idx: i, proc, inflight, out, done: false, killed_for_hang: None, stopped_by_parent: false });
     }
     let wall_limit = Duration::from_secs(env_u64("VERIF_WALL_LIMIT_S", if tier == Tier::Quick { 1500 } else { 6 * 3600 }));
     loop {
         let mut all_done = true;
+        // one suspected hang is enough: stop the other workers, the case is confirmed alone
+        if children.iter().any(|c| c.killed_for_hang.is_some()) {
+            for c in children.iter_mut() {
+                if !c.done {
+                    let _ = c.proc.kill();
+                    let _ = c.proc.wait();
+                    c.done = true;
+                    c.stopped_by_parent = true;
+                }
+            }
+        }
         for c in children.iter_mut() {
             if c.done {
                 continue;
@@ -639,6 +651,9 @@ pub fn check_main(def: &PropDef, tier: Tier) -> i32 {
                 }
             }
             None => {
+                if c.stopped_by_parent {
+                    continue;
+                }
                 // abnormal end: find the case in flight and confirm it alone
                 let k = c.killed_for_hang.or_else(|| c.inflight.lock().unwrap().0);
                 let status = c.proc.try_wait().ok().flatten();
